@@ -179,4 +179,15 @@ theorem C10_connect_success_online (s : S) (fromPrologue : Bool) (h : (s.connect
       | (intro h; rename_i hm; have := connectFinish_good _ _ _; simp_all [ConnectGood]; done)
   exact key h
 
+/-- when the read routine leaves a connection, no request stays registered: the transaction table is empty and the ping slot
+free (each one was answered with ErrBreak: `C11_breakAll_releases_all`, `C11_ping_slot`) -/
+theorem C10_toOffline_releases_requests (s : S) (h : s.link ≠ .closed) : s.toOffline.txs = [] ∧ s.toOffline.ping = none := by
+  rw [toOffline_eq]
+  have : (s.link == Link.closed) = false := by cases hl : s.link <;> simp_all
+  simp only [this, Bool.false_eq_true, if_false]
+  unfold offTail
+  constructor
+  · unfold S.breakAll; rfl
+  · rw [breakAll_ping, releasePing_none]
+
 end Model
